@@ -84,8 +84,11 @@ def gen(rng, k=None):
 
 ADAPTIVE = []
 ASSEMBLE = []
+SPAN = []
 import assemble_model
+import span_model
 ENTRY = []
+PIPELINE = []
 PICK_RNG = np.random.default_rng(30303)     # separate stream: keeps the fixed sample the validated one
 import region_model
 REGION_REC = region_model.RegionRecorder(max_records=40, stride=4)
@@ -138,6 +141,10 @@ def sample_stacks(ctx, target, directed=False):
                 ADAPTIVE.extend(prec.adaptive[:40])
             if len(ASSEMBLE) < 60:
                 ASSEMBLE.extend(prec.assemble[:3])
+            if len(SPAN) < 20:
+                SPAN.extend(prec.span[:2])
+            if len(a) <= 300 and len(PIPELINE) < 14:
+                PIPELINE.append((SC.sbcrun_line(a, clusters, rec), clusters, dict(desc)))
             if len(ENTRY) < 200:
                 import finder_helpers as FH
                 ENTRY.extend(FH.entry_items(a, rec.system, PICK_RNG, "stack"))
@@ -175,6 +182,8 @@ def run(ctx):
     finder_helpers.check(ctx, broken, ADAPTIVE, ENTRY)
     region_model.check(ctx, broken, REGION_REC.records)
     assemble_model.check(ctx, broken, ASSEMBLE)
+    span_model.check(ctx, broken, SPAN)
+    finder_helpers.pipeline_corr(ctx, broken, PIPELINE)
     if broken and not bad:
         bad, f2, f3 = sample_stacks(ctx, ctx.n(60, 300), directed=True)
         for b in bad[:5]:
